@@ -157,6 +157,8 @@ class Frame:
         self.opaque = opaque
         self.opaque_vals = {}
         self._next = {}
+        self._guess = {}
+        self._guess_used = set()
 
     def const_for(self, sig):
         return z3.BitVec("%s%s" % (signame(sig), self.tag), sig.nbits)
@@ -176,13 +178,36 @@ class Frame:
                 self.reg_vals[sig] = bv
         elif sig in tr.comb_targets:
             if sig in self.in_progress:
+                g = self._guess.get(sig)
+                if g is not None:
+                    self._guess_used.add(sig)
+                    return g                 # bit-sliced self-reference: current approximation (see below)
                 raise ExtractionError("combinational loop through %s: %s" % (
                     signame(sig), [signame(x) for x in self.in_progress]))
             self.in_progress.append(sig)
             local = {sig: tr.reset_value(sig)}
-            self.exec_stmts(tr.stmts_for[sig], local, frozenset([sig]))
+            try:
+                self.exec_stmts(tr.stmts_for[sig], local, frozenset([sig]))
+                bv = local[sig]
+            except ExtractionError as e:
+                if "combinational loop through %s:" % signame(sig) not in str(e) or len(self.in_progress) == 0 \
+                        or self.in_progress[-1] is not sig:
+                    self.in_progress.pop()
+                    raise
+                # A signal whose bits depend on lower bits of itself (bit-level acyclic): evaluate as the simulator
+                # does, by iterating from the reset value; nbits+1 rounds reach the unique fixpoint.  The result is
+                # cross-checked against the Migen simulator by difftest like everything else.
+                bv = tr.reset_value(sig)
+                for _round in range(sig.nbits + 1):
+                    keys = set(self.env)
+                    self._guess[sig] = bv
+                    local = {sig: tr.reset_value(sig)}
+                    self.exec_stmts(tr.stmts_for[sig], local, frozenset([sig]))
+                    bv = z3.simplify(local[sig])
+                    for k_ in set(self.env) - keys:
+                        del self.env[k_]
+                del self._guess[sig]
             self.in_progress.pop()
-            bv = local[sig]
         else:
             bv = self.in_vals.get(sig)
             if bv is None:
